@@ -6,6 +6,7 @@ import (
 	"go/constant"
 	"go/token"
 	"go/types"
+	"math"
 	"sort"
 	"strings"
 
@@ -165,6 +166,10 @@ func c05ovf(c *core.Ctx, r *core.Reporter) {
 				}
 				if ex, ok := ovfExceptions[key]; ok {
 					r.Hold(rule, key, c.Pos(in.Pos()), "accepted by reading: "+ex)
+					continue
+				}
+				if ovfJudgedKeys[key] && strings.HasSuffix(key, "|*") && comparesWithMinInt64(fn) {
+					r.Hold(rule, key, c.Pos(in.Pos()), "q*d with q = n/d: the one pair whose quotient wraps, most-negative-fixnum by -1, is tested for and handed to the bignum arm before this arm is reached (the function compares the dividend with math.MinInt64)")
 					continue
 				}
 				if ex, ok := ovfFuncExceptions[core.SSAName(fn)]; ok && !ovfJudgedKeys[key] {
@@ -732,4 +737,24 @@ func c05norm(c *core.Ctx, r *core.Reporter) {
 	for _, ft := range fts {
 		r.Decide(!cmpLossy[ft], cmp, "slip.NormalizeNumber|(exact, "+ft+")", c.Pos(outer.Pos()), fmt.Sprintf("%d arms pair an exact type with %s; the exact operand is converted to %s: %v", cmpSeen[ft], ft, ft, cmpLossy[ft]))
 	}
+}
+
+// comparesWithMinInt64: the function tests a fixnum for equality with math.MinInt64.
+func comparesWithMinInt64(fn *ssa.Function) bool {
+	for _, b := range fn.Blocks {
+		for _, in := range b.Instrs {
+			bo, ok := in.(*ssa.BinOp)
+			if !ok || bo.Op != token.EQL {
+				continue
+			}
+			for _, side := range []ssa.Value{bo.X, bo.Y} {
+				if k, ok := side.(*ssa.Const); ok && k.Value != nil && k.Value.Kind() == constant.Int {
+					if v, exact := constant.Int64Val(k.Value); exact && v == math.MinInt64 {
+						return true
+					}
+				}
+			}
+		}
+	}
+	return false
 }
